@@ -1427,7 +1427,9 @@ bool WFXMLScanner::scanStartTagNS(bool& gotData)
         // which have been bound to namespace names that are identical. 
         XMLAttr* loopAttr;
         XMLAttr* curAtt;
-        for (unsigned int attrIndex=0; attrIndex < attCount-1; attrIndex++) {
+        // (the hash table variant has to look at every attribute, the last
+        // one included; the pairwise variant has nothing to compare it with)
+        for (unsigned int attrIndex=0; attrIndex < attCount; attrIndex++) {
             loopAttr = fAttrList->elementAt(attrIndex);
 
             if (!toUseHashTable)
